@@ -1779,25 +1779,23 @@ impl OutstationSession {
                         frame_id,
                         controls.hash(),
                     ) {
-                        Err(status) => {
-                            controls.respond_with_status(&mut cursor, status).unwrap();
-                            status
-                        }
+                        // if the echo does not fit the response buffer, whatever fits is sent
+                        Err(status) => controls
+                            .respond_with_status(&mut cursor, status)
+                            .map(|_| status),
                         Ok(()) => {
                             let max_controls_per_request = self.config.max_controls_per_request;
                             ControlTransaction::execute(
                                 self.control_handler.borrow_mut(),
                                 database,
                                 |tx, db| {
-                                    controls
-                                        .operate_with_response(
-                                            &mut cursor,
-                                            OperateType::SelectBeforeOperate,
-                                            tx,
-                                            db,
-                                            max_controls_per_request,
-                                        )
-                                        .unwrap()
+                                    controls.operate_with_response(
+                                        &mut cursor,
+                                        OperateType::SelectBeforeOperate,
+                                        tx,
+                                        db,
+                                        max_controls_per_request,
+                                    )
                                 },
                             )
                             .await
@@ -1806,8 +1804,9 @@ impl OutstationSession {
                 }
                 None => {
                     let status = CommandStatus::NoSelect;
-                    controls.respond_with_status(&mut cursor, status).unwrap();
-                    status
+                    controls
+                        .respond_with_status(&mut cursor, status)
+                        .map(|_| status)
                 }
             };
 
@@ -1817,7 +1816,7 @@ impl OutstationSession {
         // Calculate IIN and return it
         let mut iin = Iin::default();
 
-        if status == CommandStatus::NotSupported {
+        if let Ok(CommandStatus::NotSupported) = status {
             iin |= Iin2::PARAMETER_ERROR;
         }
 
